@@ -91,6 +91,8 @@ type VC struct {
 	entryH8  string
 	defOf    map[string]string // define-fun name -> its term
 	consts   map[string]string // heap locations known to hold a literal
+	hyps     []func(inst string) string // quantified hypotheses, instantiable at a term
+	instantiating bool
 	bound    []string // names of quantifier-bound variables currently in scope
 	skR, skI string   // skolem constants of the frame obligations
 	decisions map[string]bool // forced truth values of opaque predicates (VC-level case split)
